@@ -15,5 +15,6 @@ MCAsts == << Fn(NameCps["sort_by"], <<Lit(Arr(<<I(3), I(1), I(2)>>)), Ref(Curren
 MCDocs == << Arr(<<I(3), I(1), I(2)>>), Obj({<<cA, I(-1)>>, <<cB, Str(<<120>>)>>}), Obj({<<cA, Str(<<120>>)>>}),
              Obj({<<cA, Arr(<<Obj({<<cA, I(2)>>}), Obj({<<cA, I(1)>>})>>)>>}), Null >>
 (* a.b | [0 | (unclosed quote) | a[1] | a.b.c | * | a( | `1` *)
-MCTexts == << <<97, 46, 98>>, <<91, 48>>, <<34, 97>>, <<97, 91, 49, 93>>, <<97, 46, 98, 46, 99>>, <<42>>, <<97, 40>>, <<96, 49, 96>>, <<97, 124, 124>> >>
+MCTexts == << <<97, 46, 98>>, <<91, 48>>, <<34, 97>>, <<97, 91, 49, 93>>, <<97, 46, 98, 46, 99>>, <<42>>, <<97, 40>>, <<96, 49, 96>>, <<97, 124, 124>>,
+             <<39, 105, 116, 92, 39, 115>>, <<39, 120, 39>>, <<97, 91, 63, 98, 61, 61, 39, 120, 39, 93>> >>   \* 'it\'s (unclosed) | 'x' | a[?b=='x']
 =============================================================================
